@@ -320,6 +320,15 @@ fn conv_level(t: &mut Tape<'_>, o: &ConvOpts, depth: usize, name: &str) -> CmdSp
             c.subs.push(sc);
         }
     }
+    if c.args.iter().filter(|a| a.is_positional()).count() >= 2 && t.chance(1, 6) {
+        c.settings.positionals_declared_backwards = true;
+    }
+    // a third of the value-taking arguments leave their action to the library's inference
+    for a in c.args.iter_mut() {
+        if matches!(a.action, Action::Set | Action::Append) && t.chance(1, 3) {
+            a.action_inferred = true;
+        }
+    }
     c
 }
 
@@ -600,6 +609,10 @@ pub fn gen_invocation(t: &mut Tape<'_>, spec: &CmdSpec, io: &InvOpts) -> Invocat
             let noccs = if repeatable {
                 t.range(1, 3)
             } else if multi && p.action == Action::Append && !after_esc && t.chance(1, 2) {
+                2
+            } else if multi && p.action == Action::Set && io.illegal_repeats && !after_esc && !low_index_layout_spec && t.chance(1, 6) {
+                // a Set positional given twice (when something separates the two runs): conflict, or last wins under
+                // args_override_self
                 2
             } else {
                 1
@@ -1402,12 +1415,15 @@ pub fn expect(spec: &CmdSpec, inv: &Invocation, cluster_entry: &[bool]) -> Optio
                         interleaved: false,
                     });
                     match a.action {
+                        // (a declared default_missing_value replaces the implicit one of the flag action)
                         Action::SetTrue => {
-                            e.occurrences = vec![vec![b"true".to_vec()]];
+                            let raw = a.default_missing_values.first().map(|s| s.as_bytes().to_vec()).unwrap_or_else(|| b"true".to_vec());
+                            e.occurrences = vec![vec![raw]];
                             e.indices = vec![c];
                         }
                         Action::SetFalse => {
-                            e.occurrences = vec![vec![b"false".to_vec()]];
+                            let raw = a.default_missing_values.first().map(|s| s.as_bytes().to_vec()).unwrap_or_else(|| b"false".to_vec());
+                            e.occurrences = vec![vec![raw]];
                             e.indices = vec![c];
                         }
                         Action::Count => {
@@ -1565,8 +1581,8 @@ pub fn expect_seq(spec: &CmdSpec, inv: &Invocation, cluster_entry: &[bool]) -> O
                 }
             }
             let vals: Vec<Bytes> = match (a.action, values) {
-                (Action::SetTrue, _) => vec![b"true".to_vec()],
-                (Action::SetFalse, _) => vec![b"false".to_vec()],
+                (Action::SetTrue, _) => vec![a.default_missing_values.first().map(|s| s.as_bytes().to_vec()).unwrap_or_else(|| b"true".to_vec())],
+                (Action::SetFalse, _) => vec![a.default_missing_values.first().map(|s| s.as_bytes().to_vec()).unwrap_or_else(|| b"false".to_vec())],
                 (Action::Count, _) => vec![(prev_count + 1).min(255).to_string().into_bytes()],
                 (_, Some(v)) if v.is_empty() && !is_pos => {
                     let dm: Vec<Bytes> = a.default_missing_values.iter().map(|s| s.as_bytes().to_vec()).collect();
